@@ -56,8 +56,10 @@ Init == /\ prog = [decl |-> << >>, rx |-> << >>] /\ safe = FALSE /\ tp = << >> /
 NewTau == tau' \in {RandomElement(TauGrid)}
 
 AddRx == /\ pc = "build" /\ NRx(prog) < MaxRx
-         /\ \E re \in Pick(SeqsUpTo(MaxSide)), pr \in Pick(SeqsUpTo(MaxSide)), dside \in Pick(0..5) :
-            \E law \in Pick({MassLaw(re, k) : k \in (IF Mode = "chem" THEN {I(2), R(1, 2)} ELSE KG)} \cup (IF Mode = "sim" /\ dside = 5 THEN HillLawsG ELSE {})),
+         /\ \E re \in Pick(SeqsUpTo(MaxSide)), pr \in Pick(SeqsUpTo(MaxSide)), dside \in Pick(0..5), hill \in Pick(1..4) :
+            \* (sim mode: one reaction in four has a Hill-type law, independently of whether it has a delayed part)
+            \E law \in (IF Mode = "sim" /\ hill = 4 THEN Pick(HillLawsG)
+                        ELSE Pick({MassLaw(re, k) : k \in (IF Mode = "chem" THEN {I(2), R(1, 2)} ELSE KG)})),
               dre \in Pick(IF dside = 1 THEN SeqsUpTo(1) ELSE {<< >>}),
               dpr \in Pick(IF dside \in {1, 2} THEN SeqsUpTo(1) ELSE {<< >>}) :
               prog' = [prog EXCEPT !.rx = Append(@, [re |-> re, pr |-> pr, dre |-> dre, dpr |-> dpr, law |-> law,
